@@ -9,7 +9,7 @@ EXPLANATION = (
     "decompose_sequential = axioms + c_0..c_{k-1} re-labelled axiom + c_k, conjectures taken in order, names from the enumerate index (a map closure with captured state and an explicit loop are the same "
     "comprehension). FLOW-READ: every read of the fields simplify / break_equivalences / decomposition of the three task structs (directly or through a named local copy) is a branch condition, a Decomposition "
     "dispatch, a pass-through into the next task stage under the same field name, or the argument of Problem::decompose - nothing else depends on "
-    "the flags. The simplifiers themselves are C07. SHARED: the relation tables of the TPTP printer (C06) and the order of the simplification passes around gamma (C03) run here too: both flag settings must state the same claim.")
+    "the flags. The simplifiers themselves are C07. SHARED: the relation tables of the TPTP printer (C06) and the order of the simplification passes around gamma (C03) run here too: both flag settings must state the same claim. CLI: --no-simplify / --no-eq-break are plain presence flags.")
 UNDECIDED = ["the model-level statement (same refuting interpretations); it follows from these structural facts together with C07's undecided part"]
 ASSUMPTIONS = ["C07: simplification preserves meaning", "F <-> G is equivalent to (F -> G) and (F <- G); a conjunction of conjectures is refuted iff one of them is"]
 
